@@ -329,7 +329,8 @@ theorem rewriteL_plain (m : Mode) (rrf : Bool) : ∀ (l : List Node),
 end
 
 /-- Deprecated elements and attributes are rewritten to their documented replacements and
-nothing else happens: if the document with `font` → `span`, `font[color]` → `data-mx-color`,
+nothing else happens: if the document contains no comments or other non-element, non-text nodes
+(`ho`) and the document with `font` → `span`, `font[color]` → `data-mx-color`,
 `strike` → `s` applied is a document of the allow-list grammar, the output of sanitization in
 strict or compat mode is exactly that rewritten document — children and all other attributes as
 they were (`rewrite_preserves`) — and it is a fixpoint of sanitization. -/
